@@ -121,6 +121,7 @@ class FnSpec:
         self.impl_match = None
         self.may_fail = []
         self.no_panic_when = None
+        self.strip_nested = False     # R19
         self.debug_builders = False   # R18
         self.ptr_model = []        # R17: (array expression, element type, [pointer names])
         self.concrete_ret = None   # R14: `-> impl '_ + Traits` -> the concrete type the body constructs
@@ -277,7 +278,7 @@ def parse_contract_file(path, unit=None, seen=None):
             continue
         st = ln.strip()
         m = re.match(r'^(ret|requires|ensures|decreases|loop|invariant|invariant_except_break|loop_ensures|at_start|at_end|after_loop|before_loop|loop_body_start|loop_body_end|at|attr|tags|as_inherent|'
-                     r'external_body|no_body|loop_hint|subst|impl_match|returns|opens|debug_assert_may_fail|concrete_ret|no_panic_when|ptr_model|debug_builders)\b\s*(.*)$', st)
+                     r'external_body|no_body|loop_hint|subst|impl_match|returns|opens|debug_assert_may_fail|concrete_ret|no_panic_when|ptr_model|debug_builders|strip_nested_items)\b\s*(.*)$', st)
         indent = len(ln) - len(ln.lstrip())
         if m and indent <= 4 or (m and m.group(1) in ('invariant', 'invariant_except_break', 'loop_ensures', 'decreases') and indent <= 8 and cur_clause is None):
             kw, rest = m.group(1), m.group(2)
@@ -362,6 +363,8 @@ def parse_contract_file(path, unit=None, seen=None):
                 cur_fn.concrete_ret = rest.strip()
             elif kw == 'debug_builders':
                 cur_fn.debug_builders = True
+            elif kw == 'strip_nested_items':
+                cur_fn.strip_nested = True
             elif kw == 'ptr_model':
                 mm = re.match(r'^(\S+)\s+\[(\S+)\]\s*:\s*(.+)$', rest)
                 if not mm:
@@ -862,6 +865,12 @@ class FnAsm:
                 if any(norm_ws(mf) in c for c in inv):
                     raise Undecided('%s: debug_assert_may_fail "%s" matches an invariant!() condition of the sources '
                                     '(invariant! becomes assert_unchecked in unsafe builds and must be proved)' % (self.qual, mf))
+        if sp and sp.strip_nested:
+            try:
+                body, nlog = rules.r19_strip_nested_items(body)
+            except (rules.RuleError, rsparse.ScanError) as e:
+                raise Undecided('%s: %s' % (self.qual, e))
+            self.log += nlog
         n_loops_before = len(rules.loop_headers(body))
         try:
             body, log = rules.apply_all(body, opts)
